@@ -307,7 +307,9 @@ func (mw *msgWriter) stopMP() {
 // Returns:
 //   - A string representing the multipart boundary, or an empty string if none is found.
 func (mw *msgWriter) getMultipartBoundary(msg *Msg, mimetype MIMEType) string {
-	if msg.boundary != "" {
+	// A user provided boundary can only be used for the outermost multipart. Nested multiparts
+	// need a boundary of their own, otherwise the delimiters of the layers cannot be told apart.
+	if msg.boundary != "" && mw.depth == 0 {
 		return msg.boundary
 	}
 	if msg.multiPartBoundary[mimetype] != "" {
